@@ -4,8 +4,12 @@ package c13
 
 import (
 	"bytes"
+	"encoding/hex"
 	"fmt"
 	"math/big"
+	"os"
+	"path/filepath"
+	"strings"
 	"testing"
 
 	"pgregory.net/rapid"
@@ -247,3 +251,59 @@ func propKeyImport(t *rapid.T) {
 }
 
 func TestC13_KeyImport(t *testing.T) { rapid.Check(t, propKeyImport) }
+
+// TestC13_StructuredChallengeCorpus replays (key, nonce, message) triples
+// whose BIP-340 challenge hash e = H(R.x || P.x || m) has a rare shape (zero /
+// all-ones 32-bit half word, 64-bit words that share no set bit or cover all
+// bits, nearly equal words; found once by brute force with cmd/structsearch --
+// the challenge comes out of SHA-256 and cannot be steered).  The valid
+// signature must be accepted and its neighbours rejected there too.
+func TestC13_StructuredChallengeCorpus(t *testing.T) {
+	raw, err := os.ReadFile(filepath.Join("testdata", "structured_challenges.txt"))
+	if err != nil {
+		t.Fatalf("HARNESS-INCONCLUSIVE: corpus missing: %v", err)
+	}
+	n := 0
+	classes := map[string]bool{}
+	for _, line := range strings.Split(string(raw), "\n") {
+		f := strings.Fields(line)
+		if len(f) != 6 || f[0] != "bip340-challenge" {
+			continue
+		}
+		dB, _ := hex.DecodeString(f[2])
+		kB, _ := hex.DecodeString(f[3])
+		msg, _ := hex.DecodeString(f[4])
+		hB, _ := hex.DecodeString(f[5])
+		d, k := ref.Int(dB), ref.Int(kB)
+		pk := ref.B32(ref.BaseMul(d).X)
+		sig := ref.BIP340SignWithNonce(d, k, msg, true)
+		if got := ref.TaggedHash("BIP0340/challenge", sig[:32], pk, msg); !bytes.Equal(got, hB) {
+			t.Fatalf("HARNESS-INCONCLUSIVE: corpus line %q does not match the reference challenge hash %x", line, got)
+		}
+		if !ref.BIP340Verify(pk, msg, sig) {
+			t.Fatalf("HARNESS-INCONCLUSIVE: reference rejects the corpus signature %q", line)
+		}
+		key, err := bitcoin.NewSchnorrPublicKey(pk)
+		if err != nil {
+			t.Fatalf("NewSchnorrPublicKey(%x): %v", pk, err)
+		}
+		if !key.Verify(msg, sig) {
+			t.Fatalf("Verify rejects a valid BIP-340 signature whose challenge hash is %x [shape %s]: pk=%x msg=%x sig=%x", hB, f[1], pk, msg, sig)
+		}
+		for _, pos := range []int{63, 32, 31, 0} {
+			bad := append([]byte(nil), sig...)
+			bad[pos] ^= 1
+			if key.Verify(msg, bad) != ref.BIP340Verify(pk, msg, bad) {
+				t.Fatalf("Verify disagrees with BIP-340 on a neighbour (byte %d flipped) of the signature with challenge shape %s: pk=%x msg=%x sig=%x", pos, f[1], pk, msg, bad)
+			}
+		}
+		n++
+		classes[f[1]] = true
+		stat.Case("structured-challenge-corpus", []string{"shape:" + f[1]}, true, []byte(line), func() any {
+			return map[string]any{"shape": f[1], "d": f[2], "k": f[3], "msg": f[4], "challenge_hash": f[5]}
+		})
+	}
+	if n < 12 || len(classes) < 12 {
+		t.Fatalf("HARNESS-INCONCLUSIVE: corpus has only %d usable lines in %d shape classes", n, len(classes))
+	}
+}
